@@ -2039,11 +2039,15 @@ func (e *Engine) invoke(fr *Frame, c *Ctx, x *ssa.Call) (Value, *Ctx, bool) {
 		args = append(args, e.get(c, a))
 	}
 	if cc.Method.Name() == "ContainsName" {
-		s, ok := args[0].(StrV).Concrete()
-		if !ok {
-			unsup("ContainsName on symbolic format")
+		// strfmt.Default.ContainsName: exact for strings without '-' other than "date-time" (harness domain: "", "date", "x-unknown")
+		names := []string{"bsonobjectid", "byte", "cidr", "creditcard", "date", "datetime", "date-time", "duration", "email", "hexcolor", "hostname",
+			"ipv4", "ipv6", "isbn", "isbn10", "isbn13", "mac", "password", "rgbcolor", "ssn", "ulid", "uri", "uuid", "uuid3", "uuid4", "uuid5"}
+		sv := args[0].(StrV)
+		var disj []*Term
+		for _, n := range names {
+			disj = append(disj, eqV(sv, StrC(n)))
 		}
-		return BoolV{BoolC(s == "date" || s == "date-time" || s == "uuid")}, c, true
+		return BoolV{Or(disj...)}, c, true
 	}
 	var res Value
 	var out *Ctx
